@@ -1,6 +1,7 @@
 #!/bin/bash
 # C10: three executables
 #   pools        igris pools (C pool_head, igris::pool, static_object_pool) under ASan
+#   pools_ndebug the same with -DNDEBUG (release-mode headers)
 #   heap_assert  lin_malloc/lin_realloc compiled as they are (assertions on: an abort is a violation)
 #   heap_ndebug  the same sources with -DNDEBUG (structural oracles only)
 set -e
@@ -21,13 +22,16 @@ done
 # Full build: names one private member (igris::pool::head, for the bounded free-list walk) -> -fno-access-control.
 # If that does not compile (a private member was renamed: not a property violation), fall back to the public API only.
 PC="-std=c++17 -O1 -g -fsanitize=address -fno-omit-frame-pointer -I$REPO -I$MC"
-pools_obj() {
-  if [ -z "$C10_FORCE_PUBLIC_ONLY" ] && g++ -c $PC -fno-access-control $H/c10_pools.cpp -o $BUILD/pools.o 2> $BUILD/pools_full.err; then return 0; fi
-  g++ -c $PC -DC10_PUBLIC_ONLY $H/c10_pools.cpp -o $BUILD/pools.o || return 1
+pools_obj() { # $1 = object name, $2.. = extra flags
+  local o=$1; shift
+  if [ -z "$C10_FORCE_PUBLIC_ONLY" ] && g++ -c $PC "$@" -fno-access-control $H/c10_pools.cpp -o $BUILD/$o.o 2> $BUILD/${o}_full.err; then return 0; fi
+  g++ -c $PC "$@" -DC10_PUBLIC_ONLY $H/c10_pools.cpp -o $BUILD/$o.o || return 1
   echo "NOTE: private state names changed, free-list walk replaced by allocation probing" > $BUILD/notes.txt
   cat $BUILD/notes.txt
 }
-par pools_obj
+par pools_obj pools
+# release-mode variant of the headers (assert() vanishes: an assert that masks a bad state or carries a side effect)
+par pools_obj pools_ndebug -DNDEBUG
 par gcc -c -O1 -I$REPO $REPO/igris/dprint/dprint_func_impl.c -o $BUILD/dprint.o
 par gcc -c -O1 -I$REPO $REPO/igris/dprint/dprint_stub.c -o $BUILD/dstub.o
 parwait
@@ -43,9 +47,11 @@ for v in assert ndebug; do
   par g++ $BUILD/heap_$v.o $BUILD/m_$v.o $BUILD/r_$v.o $BUILD/syslock.o $BUILD/mc.o $BUILD/dprint.o $BUILD/dstub.o -lpthread -o $BUILD/c10_heap_$v
 done
 par g++ -fsanitize=address $BUILD/pools.o $BUILD/mc.o $BUILD/dprint.o $BUILD/dstub.o -o $BUILD/c10_pools
+par g++ -fsanitize=address $BUILD/pools_ndebug.o $BUILD/mc.o $BUILD/dprint.o $BUILD/dstub.o -o $BUILD/c10_pools_ndebug
 parwait
 {
   echo "pools $BUILD/c10_pools"
+  echo "pools_ndebug $BUILD/c10_pools_ndebug --only cxx_pool,static_object_pool,pools_large,c_pool_pair"
   echo "heap_ndebug $BUILD/c10_heap_ndebug"
   echo "heap_assert $BUILD/c10_heap_assert"
 } > $BUILD/runs.txt
